@@ -1,6 +1,6 @@
 """Translator anchors for fedjax/core/metrics.py: every Metric.evaluate_example
 and get_target_weight (C14); PerDomainMetric.evaluate_example + apply_mask are matched structurally."""
-from lib.mtr import A_metric, A_target_weight, A_per_domain, A_no_hidden_inputs
+from lib.mtr import A_metric, A_target_weight, A_per_domain, A_no_hidden_inputs, A_ce_widens_targets
 
 K = ('k', 'k', 'int')
 MASKED = ('masked_target_values', 'masked', 'il')
@@ -13,6 +13,7 @@ MODULES = {
         'preamble': 'From Coq Require Import QArith.\nFrom FV Require Import Model.C14_Prims.\n',
         'items': [
             A_no_hidden_inputs(),
+            A_ce_widens_targets(),
             A_target_weight('gen_get_target_weight'),
             A_metric('CrossEntropyLoss', 'gen_cross_entropy', [], 'int', 'fv', 'qs', ce_type='q'),
             A_metric('Accuracy', 'gen_accuracy', [], 'int', 'fv', 'ms'),
@@ -27,7 +28,7 @@ MODULES = {
             A_metric('SequenceTokenOOVRate', 'gen_seq_oov', [('oov_target_values', 'oovs', 'il'), MASKED, PP], 'zv', None, 'msv'),
             A_metric('SequenceLength', 'gen_seq_length', [MASKED], 'zv', None, 'ms'),
             A_per_domain('gen_per_domain'),
-            A_metric('ConfusionMatrix', 'gen_confusion', [('num_classes', 'num_classes', 'int')], 'int', 'fv', 'ssm', error=True),
+            A_metric('ConfusionMatrix', 'gen_confusion', [('num_classes', 'num_classes', 'int')], 'int', 'fv', 'ssm', error=True, int32_target=True),
         ],
     },
 }
